@@ -369,6 +369,14 @@ def async_hsm_stream(tier, seed):
             hist.append((0, e, 101 + 2 * j))
         c['history'] = hist
         c['cls'] = ['HierarchicalAsyncMachine', 'HierarchicalAsyncGraphMachine'][i % 2]
+        if i % 4 == 2:
+            # an evaluated callback of the first may_ call raises (Exception and BaseException subclasses), with and
+            # without on_exception handlers
+            if i % 8 == 2 and not c['machine']['on_exception']:
+                c['machine']['on_exception'] = [950]
+            c['env']['bypos'] = {rng.randint(0, 2): (True, [(4, 1), (3, 1), (4, 7), (3, 29)][(i // 4) % 4], [])}
+        if i % 5 == 3:
+            c['attr'] = 'phase'
         cases.append(c)
     mo = F.run_model(3, [hsm.enc_case(c) for c in cases])
     io = F.run_impl('hsm', 'impl_hsm_async', cases)
@@ -396,6 +404,13 @@ def async_flat_stream(tier, seed):
         ne = len(c['machine']['events'])
         c['history'] = [(k, e, a) for (k, e, a) in c['history'] if e < ne] or [(1, 0, 100), (0, 0, 101)]
         c['cls'] = ['AsyncMachine', 'AsyncGraphMachine'][i % 2]
+        if i % 3 == 0:
+            # an evaluated callback of the first may_ call raises - every third of these a BaseException subclass -
+            # with on_exception handlers registered: routed to them exactly as the trigger does
+            if not c['machine']['on_exception']:
+                c['machine']['on_exception'] = [950]
+            c['env']['bypos'] = {rng.randint(0, 2): (True, [(4, 1), (3, 1), (4, 7), (3, 29), (4, 5), (3, 20)][(i // 3) % 6], [])}
+            c['raising'] = True
         cases.append(c)
     mo = F.run_model(0, [flat.enc_case(c) for c in cases])
     io = F.run_impl('flat', 'impl_flat_async', cases)
